@@ -22,7 +22,7 @@ INFOS = {
     'k0': {'ava': {'a': ['1'], 'b': ['x']}},
     'k1': {'ava': {'a': ['2', '1'], 'c': ['y']}, 'name_id': True, 'session_index': 'si'},
 }
-EXPIRIES = (-10, 10, 30)
+EXPIRIES = (-10, 0, 20)
 TICK = 20
 
 
@@ -195,7 +195,7 @@ def expected(w):
                     v = ('NODATA',)
                 elif rec[1] is None:
                     v = ('TOOLD',) if check else ('EMPTY',)      # reset: expiry 0 reads as expired when checking
-                elif check and now > rec[0]:
+                elif check and now > rec[0]:      # at now == expiry the time has not passed: still valid
                     v = ('TOOLD',)
                 else:
                     i = INFOS[rec[1]]
@@ -275,8 +275,8 @@ def ops_alphabet():
             for ik in INFOS:
                 for off in CFG['expiries']:
                     ops.append(('set', s, src, ik, off))
-            ops.append(('add', s, src, 'k1', 10))
-            ops.append(('add', s, src, 'k0', 30))
+            ops.append(('add', s, src, 'k1', 0))
+            ops.append(('add', s, src, 'k0', 20))
             ops.append(('reset', s, src))
         ops.append(('delete', s))
     return ops
@@ -285,12 +285,14 @@ def ops_alphabet():
 def run_history(hist, backend='memory', path=None, reopen=False):
     w = World(backend, path)
     bad = []
-    for op in hist:
+    for i, op in enumerate(hist):
         bad = apply_op(w, tuple(op))
         if reopen:
             w.reopen()
         if bad:
             break
+        if i + 1 < len(hist):
+            observe(w)       # every query runs after every step (reads must not change what later reads return)
     return w, bad
 
 
@@ -322,6 +324,10 @@ def expand(hist):
 
 def run(ctx):
     CFG['tmp'] = ctx.tmp
+    if os.path.isdir('/dev/shm') and os.access('/dev/shm', os.W_OK):
+        import tempfile, atexit, shutil
+        CFG['tmp'] = tempfile.mkdtemp(prefix='vp-c19-', dir='/dev/shm')
+        atexit.register(shutil.rmtree, CFG['tmp'], True)
     CFG['subjects'] = ('s1', 's2', 's3') if not ctx.thorough else ('s1', 's2', 's3', 's4')
     CFG['expiries'] = EXPIRIES
     CFG['shelve'] = True
@@ -368,7 +374,7 @@ def run(ctx):
                          'expiry_offsets': EXPIRIES, 'tick': TICK},
             'rule': 'BFS over histories of set/add(Population)/tick/reset/delete on a fresh real Cache (memory) and, for every transition, the same history on the shelve-backed Cache%s; after every step %d queries (get, active, get_identity with entity lists, entities, stale sources, subjects; with and without expiry checking) are compared with a reference dict under the virtual clock and between the two back-ends; states merged by (reference content, clock)' % (' reopened between steps' if ctx.thorough else '', len(observe(w0))),
         },
-        'assumptions': ['expiry exactly at now and expiry 0 with non-empty info are not generated (left unspecified by the statement)',
+        'assumptions': ['expiry exactly at now counts as not yet passed (the quantifier lists before/at/after); expiry 0 with non-empty info is not generated',
                         'queries on never-stored subjects/sources: any exception or empty result counts as no data'],
     }
 
